@@ -1,4 +1,5 @@
 """Rule kinds shared by the per-property modules (see DESIGN.md §3)."""
+import os
 from .engine import AnchorLost, Undecidable
 from .mir import (Origins, SubstOrigins, ChoiceOrigins, NotLoopFree, name_matches, op_place, path_words, place_local, place_proj,
                   rvalue_operands, show, strip_generics, strip_identity, switch_info, term_calls,
@@ -179,6 +180,55 @@ def check_constructed_only_in(ob, prog, adt, allowed, crates=None, floor=1):
 # R-PATHSEQ helpers
 
 
+_PROG = None
+
+
+def set_program(prog):
+    """the program whose closure bodies the combinator models of words_of may look into (set once per run by the engine)"""
+    global _PROG
+    _PROG = prog
+
+
+_PINNED_SET = None
+
+
+def _pinned_set():
+    global _PINNED_SET
+    if _PINNED_SET is None:
+        from .normalize import pinned_bodies
+        _PINNED_SET = pinned_bodies()
+    return _PINNED_SET
+
+
+class _CallView:
+    """a call of an inlined closure/helper body presented to the rule's call_sym: its destination is never the rule's `_0`"""
+    def __init__(self, c):
+        self._c = c
+        self.dest = ("inlined", c.dest) if c.dest == 0 else c.dest
+
+    def __getattr__(self, k):
+        return getattr(self._c, k)
+
+
+_RET, _VAL = "\x00closure-result", "\x00plain-value"
+# std combinators as control flow: input variant -> (output variant | closure's result | plain value, index of the closure argument run on that side)
+_COMBINATORS = {
+    "core::option::Option::ok_or_else": {"Some": ("Ok", None), "None": ("Err", 1)},
+    "core::option::Option::ok_or": {"Some": ("Ok", None), "None": ("Err", None)},
+    "core::option::Option::map": {"Some": ("Some", 1), "None": ("None", None)},
+    "core::option::Option::and_then": {"Some": (_RET, 1), "None": ("None", None)},
+    "core::option::Option::or_else": {"Some": ("Some", None), "None": (_RET, 1)},
+    "core::option::Option::unwrap_or_else": {"Some": (_VAL, None), "None": (_VAL, 1)},
+    "core::option::Option::unwrap_or": {"Some": (_VAL, None), "None": (_VAL, None)},
+    "core::result::Result::map_err": {"Ok": ("Ok", None), "Err": ("Err", 1)},
+    "core::result::Result::map": {"Ok": ("Ok", 1), "Err": ("Err", None)},
+    "core::result::Result::and_then": {"Ok": (_RET, 1), "Err": ("Err", None)},
+    "core::result::Result::or_else": {"Ok": ("Ok", None), "Err": (_RET, 1)},
+    "core::result::Result::ok": {"Ok": ("Some", None), "Err": ("None", None)},
+    "core::result::Result::unwrap_or_else": {"Ok": (_VAL, None), "Err": (_VAL, 1)},
+    "core::result::Result::unwrap_or": {"Ok": (_VAL, None), "Err": (_VAL, None)},
+}
+
 _VARIANT_ENUMS = ("core::result::Result", "core::option::Option", "core::task::poll::Poll", "core::ops::control_flow::ControlFlow")
 _TRY_MAP = {"Ok": "Continue", "Err": "Break", "Some": "Continue", "None": "Break"}
 
@@ -188,7 +238,7 @@ def fmt_word(w):
 
 
 def words_of(body, call_sym, edge_sym=None, stmt_sym=None, start=0, stops=(), keep_end=True, succ=None, drop_suspend=True,
-             inline=None, _origins=None, _depth=0):
+             inline=None, _origins=None, _depth=0, _ns=None, models=True):
     """Projected word set of `body`.
     call_sym(call, origins) -> symbol | None        for call terminators
     edge_sym(bb, succ, subject_term, labels, origins) -> symbol | None    for switch edges
@@ -202,6 +252,9 @@ def words_of(body, call_sym, edge_sym=None, stmt_sym=None, start=0, stops=(), ke
     non-inlined projection (which fails closed through `?cond(..)` / missing events).
     With _depth > 0 (internal) returns a list of (symbols, return_value) instead of a set of words."""
     o = _origins or Origins(body)
+
+    def _nsl(l_):
+        return l_ if _ns is None else (_ns, l_)
     cache_b = {}
     cache_e = {}
     # boolean flag temporaries (e.g. `matches!`, `a && b`): locals whose every definition assigns a bool constant.
@@ -307,6 +360,60 @@ def words_of(body, call_sym, edge_sym=None, stmt_sym=None, start=0, stops=(), ke
             if rt == "bool":
                 flags.add(c_.dest)
 
+    if models and _PROG is not None and _depth < 2:
+        for i_, bl_ in enumerate(body.blocks):
+            if bl_.get("cleanup") or bl_["t"]["k"] != "call" or i_ in inl:
+                continue
+            c_ = body.call_at(i_)
+            if c_ is None or c_.fn not in _COMBINATORS or not isinstance(c_.dest, int) or not c_.args or not isinstance(op_place(c_.args[0]), int):
+                continue
+            try:
+                if call_sym(c_, o) is not None:
+                    continue            # the rule names this combinator call itself
+                src_ = op_place(c_.args[0])
+                src_t = o.of_operand(c_.args[0])
+                alts = []
+                okm = True
+                for vin, (vout, ci) in _COMBINATORS[c_.fn].items():
+                    pre = [("\x00mtest", _nsl(src_), vin)]        # a value map, not control flow: no visible test
+                    subs = [((), None)]
+                    ns2 = None
+                    if ci is not None and ci < len(c_.args):
+                        ct = strip_identity(o.of_operand(c_.args[ci]))
+                        kb = None
+                        first = 2
+                        if ct[0] == "agg" and ct[1] == "closure" and ct[2] in _PROG.bodies:
+                            kb = _PROG.bodies[ct[2]]
+                        elif ct[0] == "fnptr" and ct[1] in _PROG.bodies and _PROG.bodies[ct[1]].crate == body.crate and ct[1] not in _pinned_set():
+                            kb, first = _PROG.bodies[ct[1]], 1          # a fn item used as the mapper, new relative to the pinned tree
+                        if kb is not None:
+                            ns2 = (kb.path, i_)
+                            mapping = {first: ("field", ("variant", src_t, vin), "0")}
+                            so = SubstOrigins(kb, mapping)
+                            ef = inline["edge_for"](kb) if inline is not None else edge_sym
+                            subs = words_of(kb, call_sym, ef, stmt_sym, keep_end=False, succ=succ, drop_suspend=False, inline=inline, _origins=so,
+                                            _depth=_depth + 1, _ns=ns2, models=models)
+                            if not subs:
+                                okm = False
+                                break
+                    for sy_, _rv in subs:
+                        a_ = pre + list(sy_)
+                        if vout == _RET:
+                            a_.append(("\x00vcopy", _nsl(c_.dest), (ns2, 0)) if ns2 is not None else ("\x00vkill", _nsl(c_.dest)))
+                        elif vout == _VAL:
+                            a_.append(("\x00vkill", _nsl(c_.dest)))
+                        else:
+                            a_.append(("\x00vset", _nsl(c_.dest), vout, None))
+                        if a_ not in alts:
+                            alts.append(a_)
+                if okm and alts:
+                    inl[i_] = alts
+            except Exception:
+                if os.environ.get("VERIF_DEBUG_MODELS"):
+                    import traceback
+                    traceback.print_exc()
+                continue
+
     def sym_block(bb):
         if bb in cache_b:
             return cache_b[bb]
@@ -328,19 +435,19 @@ def words_of(body, call_sym, edge_sym=None, stmt_sym=None, start=0, stops=(), ke
                 pay = None
                 if len(rv["ops"]) == 1 and isinstance(op_place(rv["ops"][0]), int):
                     pay = op_place(rv["ops"][0])
-                out.append(("\x00vset", lhs, rv["variant"], pay))
+                out.append(("\x00vset", _nsl(lhs), rv["variant"], _nsl(pay) if pay is not None else None))
             elif rv["k"] == "use" and op_place(rv["op"]) is not None:
                 pl = op_place(rv["op"])
                 if isinstance(pl, int) or not pl["p"]:
-                    out.append(("\x00vcopy", lhs, place_local(pl)))
+                    out.append(("\x00vcopy", _nsl(lhs), _nsl(place_local(pl))))
                 elif len(pl["p"]) == 2 and isinstance(pl["p"][0], dict) and "d" in pl["p"][0] and isinstance(pl["p"][1], dict) and pl["p"][1].get("f") == 0:
-                    out.append(("\x00vpay", lhs, pl["l"], pl["p"][0]["d"]))
+                    out.append(("\x00vpay", _nsl(lhs), _nsl(pl["l"]), pl["p"][0]["d"]))
                 else:
-                    out.append(("\x00vkill", lhs))
+                    out.append(("\x00vkill", _nsl(lhs)))
             elif rv["k"] == "discr":
                 pass
             else:
-                out.append(("\x00vkill", lhs))
+                out.append(("\x00vkill", _nsl(lhs)))
         for s in bl["s"]:
             if s["k"] == "assign" and isinstance(s["lhs"], int) and s["lhs"] in flags:
                 out.append(("\x00set", s["lhs"], bool(s["rv"]["op"]["int"])))
@@ -362,17 +469,21 @@ def words_of(body, call_sym, edge_sym=None, stmt_sym=None, start=0, stops=(), ke
         c = body.call_at(bb)
         if c is not None and isinstance(c.dest, int):
             if name_matches(c.fn, "ops::try_trait::Try::branch") and c.args and isinstance(op_place(c.args[0]), int):
-                out.append(("\x00vtry", c.dest, op_place(c.args[0])))
+                out.append(("\x00vtry", _nsl(c.dest), _nsl(op_place(c.args[0]))))
             elif name_matches(c.fn, "ops::try_trait::FromResidual::from_residual") and body.local_ty(c.dest).startswith(("core::result::Result<", "core::option::Option<")):
                 # `?` on the failure edge: the value built from the residual is the Err / None of the return type
-                out.append(("\x00vset", c.dest, "Err" if body.local_ty(c.dest).startswith("core::result::Result<") else "None", None))
-            else:
-                out.append(("\x00vkill", c.dest))
+                out.append(("\x00vset", _nsl(c.dest), "Err" if body.local_ty(c.dest).startswith("core::result::Result<") else "None", None))
+            elif bb not in inl and c.fn in _COMBINATORS and c.args and isinstance(op_place(c.args[0]), int):
+                # a combinator the rule names itself: still a known map between variants
+                out.append(("\x00vmap", _nsl(c.dest), _nsl(op_place(c.args[0])), tuple((k_, v_[0]) for k_, v_ in _COMBINATORS[c.fn].items())))
+            elif bb not in inl:
+                out.append(("\x00vkill", _nsl(c.dest)))
         if c is not None:
             if bb in inl:
                 out.append(("\x00alt", tuple(tuple(a_) for a_ in inl[bb])))
             else:
-                x = resolve(lambda oo: call_sym(c, oo))
+                cv_ = _CallView(c) if _depth > 0 else c
+                x = resolve(lambda oo: call_sym(cv_, oo))
                 if x is not None:
                     out.append(x)
                 elif _depth > 0 and c.dest == 0 and body.local_ty(0) == "bool":
@@ -397,7 +508,7 @@ def words_of(body, call_sym, edge_sym=None, stmt_sym=None, start=0, stops=(), ke
                         if s_["rv"]["k"] == "discr":
                             dp = s_["rv"]["pl"]
                             if isinstance(dp, int) or not dp["p"]:
-                                out.append(("\x00vtest", place_local(dp), frozenset(labs)))
+                                out.append(("\x00vtest", _nsl(place_local(dp)), frozenset(labs)))
                         break
             fl = None
             if isinstance(tpl, int):
@@ -419,11 +530,19 @@ def words_of(body, call_sym, edge_sym=None, stmt_sym=None, start=0, stops=(), ke
                 cache_e[(a, b)] = None
                 return None
             vis = []
+            e_ = body.blocks[a]["t"].get("exp")
+            if e_ and e_.split("::")[-1] in TRACING_EXP:
+                cache_e[(a, b)] = out           # branches inside a tracing macro never matter to any rule
+                return out
             if edge_sym is not None:
                 def _edge(oo):
                     si_ = switch_info(body, a, oo) if oo is not o else (subj, labels)
                     return edge_sym(a, b, si_[0] if si_ else subj, labs, oo)
                 x = resolve(_edge)
+                if isinstance(x, str) and (x.startswith("?cond") or x.startswith("?discr")) and subj[0] == "discr" and len(labs) == 1 and labs <= {"Ok", "Err", "Some", "None"}:
+                    # the rule's own edge callback does not know this switch, and it is an explicit `match` on an
+                    # Option/Result: the written-out form of `?` / `ok_or..?` / let-else (canonicalised per word, see below)
+                    x = ("\x00xm", next(iter(labs)))
                 if isinstance(x, tuple) and len(x) == 4 and x[0] == "\x00dsym":
                     x = [x]
                 if isinstance(x, list):
@@ -524,7 +643,7 @@ def words_of(body, call_sym, edge_sym=None, stmt_sym=None, start=0, stops=(), ke
             known = {}          # discr subject -> (admitted variants so far, depths that tested it)
             vk = {}             # local -> (variant, payload local) known on this path
             for s_ in core:
-                if isinstance(s_, tuple) and s_ and isinstance(s_[0], str) and s_[0].startswith("\x00v"):
+                if isinstance(s_, tuple) and s_ and isinstance(s_[0], str) and (s_[0].startswith("\x00v") or s_[0] == "\x00mtest"):
                     if _depth > 0:
                         clean.append(s_)
                         continue
@@ -550,6 +669,20 @@ def words_of(body, call_sym, edge_sym=None, stmt_sym=None, start=0, stops=(), ke
                             vk.pop(s_[1], None)
                     elif tag == "\x00vkill":
                         vk.pop(s_[1], None)
+                    elif tag == "\x00vmap":
+                        src = vk.get(s_[2])
+                        m_ = dict(s_[3])
+                        if src is not None and m_.get(src[0]) in ("Ok", "Err", "Some", "None"):
+                            vk[s_[1]] = (m_[src[0]], None)
+                        else:
+                            vk.pop(s_[1], None)
+                    elif tag == "\x00mtest":
+                        kv = vk.get(s_[1])
+                        if kv is not None and kv[0] != s_[2]:
+                            feasible = False
+                            break
+                        if kv is None:
+                            vk[s_[1]] = (s_[2], None)
                     elif tag == "\x00vtest":
                         kv = vk.get(s_[1])
                         if kv is not None and kv[0] not in s_[2]:
@@ -593,9 +726,10 @@ def words_of(body, call_sym, edge_sym=None, stmt_sym=None, start=0, stops=(), ke
                 if _depth > 0:
                     pass            # resolved by the outermost caller
                 else:
-                    ret_err = vk.get(0, (None,))[0] == "Err"
+                    ret_err = vk.get(0, (None,))[0] in ("Err",)
+                    xi_ = [i_ for i_, x_ in enumerate(clean) if isinstance(x_, tuple) and len(x_) == 2 and x_[0] == "\x00xm" and x_[1] in ("Err", "None")]
+                    last_ = xi_[-1] if xi_ else None
                     res_ = []
-                    n_ = len(clean)
                     for i_, x_ in enumerate(clean):
                         if isinstance(x_, tuple) and len(x_) == 2 and x_[0] == "\x00xm":
                             if x_[1] in ("Ok", "Some"):
@@ -603,9 +737,14 @@ def words_of(body, call_sym, edge_sym=None, stmt_sym=None, start=0, stops=(), ke
                             rest = [y_ for y_ in clean[i_ + 1:] if not (isinstance(y_, tuple) and len(y_) == 2 and y_[0] == "\x00xm")]
                             if rest and rest[0] == "!err":
                                 continue                        # the caller's `?` marks this error exit already
-                            if all(isinstance(y_, str) and y_.startswith("ret=Err") for y_ in rest) and (ret_err or rest):
-                                res_.append("!err")
-                                continue
+                            if i_ == last_ and ret_err:
+                                # the failure edge of a written-out `?` / let-else: whatever the arm does (named events stay),
+                                # the path ends by returning an Err - the same word `x.ok_or_else(|| ..)?` produces
+                                tail_ = [y_ for y_ in rest if not (isinstance(y_, str) and y_.startswith("ret=") and not y_.startswith("ret=Err"))]
+                                res_.extend(tail_)
+                                if not tail_ or tail_[-1] not in ("!err",) and not (isinstance(tail_[-1], str) and tail_[-1].startswith("ret=Err")):
+                                    res_.append("!err")
+                                break
                             res_.append(f"[{x_[1]}]")
                         else:
                             res_.append(x_)
@@ -853,12 +992,28 @@ def const_of(t):
     return None
 
 
-def int_of(t):
+def int_of(t, _depth=0):
+    """integer value of a constant term, folding arithmetic on constants (named constants, `OFFSET + 1`, casts)"""
     v = const_of(t)
-    if v is None:
+    if v is not None:
+        m = __import__("re").match(r"^(-?\d+)(?:_[iu](?:8|16|32|64|128|size))?$", str(v))
+        return int(m.group(1)) if m else None
+    if _depth > 8:
         return None
-    m = __import__("re").match(r"^(-?\d+)(?:_[iu](?:8|16|32|64|128|size))?$", v)
-    return int(m.group(1)) if m else None
+    s = strip_identity(t)
+    if s[0] == "field" and s[2] == "0" and s[1][0] == "binop" and s[1][1].endswith("WithOverflow"):
+        s = ("binop", s[1][1][:-len("WithOverflow")], s[1][2], s[1][3])
+    if s[0] == "binop" and len(s) >= 4:
+        a, b = int_of(s[2], _depth + 1), int_of(s[3], _depth + 1)
+        if a is None or b is None:
+            return None
+        op = s[1]
+        try:
+            return {"Add": a + b, "Sub": a - b, "Mul": a * b, "Shl": a << b, "Shr": a >> b, "BitOr": a | b, "BitAnd": a & b, "BitXor": a ^ b,
+                    "Div": a // b if b else None, "Rem": a % b if b else None, "AddUnchecked": a + b, "SubUnchecked": a - b}.get(op)
+        except (ValueError, OverflowError):
+            return None
+    return None
 
 
 def vec_macro_elements(body, o, t):
@@ -1554,3 +1709,19 @@ def phi_alternatives(body, o, operand):
             return [(d[1], o._of_def(d, 1, frozenset({cur}))) for d in ds]
         break
     return [(None, o.of_operand(operand))]
+
+
+def payload_root(t):
+    """The value a term was unwrapped from: strips `?` (Try::branch ... as Continue), `.0` payload projections of
+    Some/Ok/Continue/Ready, and the value-preserving combinators ok_or / ok_or_else / map_err / as_ref / copied / cloned,
+    e.g. both `(Try::branch(ok_or_else(peer_id(req), ..)) as Continue).0` and `(peer_id(req) as Some).0` give `peer_id(req)`."""
+    s = strip_identity(t)
+    for _ in range(16):
+        if s[0] == "field" and s[2] == "0" and s[1][0] == "variant" and s[1][2] in ("Some", "Ok", "Continue", "Ready"):
+            s = strip_identity(s[1][1])
+            continue
+        if s[0] == "call" and name_matches(s[1], ("Try::branch", "Option::ok_or_else", "Option::ok_or", "Result::map_err", "Option::as_ref", "Option::copied", "Option::cloned")) and s[2]:
+            s = strip_identity(s[2][0])
+            continue
+        break
+    return s
